@@ -44,8 +44,13 @@ pub trait VF: RichField + Extendable<2> {
         let _ = (term, sym);
         true
     }
-    type Cfg: plonky2::plonk::config::GenericConfig<2, F = Self, FE = <Self as Extendable<2>>::Extension>
-        + 'static;
+    type Cfg: plonky2::plonk::config::GenericConfig<
+            2,
+            F = Self,
+            FE = <Self as Extendable<2>>::Extension,
+            Hasher = plonky2::hash::poseidon::PoseidonHash,
+            InnerHasher = plonky2::hash::poseidon::PoseidonHash,
+        > + 'static;
 }
 
 #[derive(Debug, Copy, Clone, Default, Eq, PartialEq)]
@@ -68,7 +73,10 @@ impl VF for SymF {
     fn accept<T, E>(f: impl FnOnce() -> Result<T, E>) -> (bool, Vec<(Op, Op)>) {
         let saved: Vec<(Op, Op)> = crate::with(|a| core::mem::take(&mut a.recorded));
         let old = crate::set_mode(EqMode::Record);
+        // Hasher::hash_or_noop round-trips short leaves through to_canonical_u64/from_canonical_u64
+        let oldp = crate::set_placeholders(true);
         let r = f();
+        crate::set_placeholders(oldp);
         crate::set_mode(old);
         let atoms = crate::with(|a| core::mem::replace(&mut a.recorded, saved));
         (r.is_ok(), atoms)
